@@ -431,6 +431,60 @@ func c19r5(c *Ctx) {
 	if n == 0 {
 		ir.Fail("the store's ancestor-timestamp method (exported DBStore method returning (time.Time, bool)) not found")
 	}
+	// the header getter likewise: a record whose body is gone still has its header. No "not found" answer may depend
+	// on the body pointer being nil.
+	hn := 0
+	for _, raw := range c.P.MethodsOf("chain", "DBStore") {
+		if !exported(raw) || raw.Type.Results == nil || raw.Type.Results.NumFields() != 2 {
+			continue
+		}
+		res := raw.Obj.Type().(*types.Signature).Results()
+		if !ir.IsNamed(res.At(0).Type(), ir.PkgPath("types"), "BlockHeader") || !isBasicKind(types.Bool)(res.At(1).Type()) {
+			continue
+		}
+		f := vs.Of(raw)
+		hn++
+		c.VisitGraph(f)
+		ob := c.Ob(f, "header-served-from-header-only-record", f.Body.Pos())
+		if calls := f.CallsTo(true, blockGetter.Obj, storeBlock); len(calls) > 0 {
+			ob.Bad(nil, "%s obtains the header through the block getter at %s, which reports not-found for a pruned block: header serving and reorg paths through the pruned range break", f.Name(), c.P.Pos(calls[0].Pos()))
+			continue
+		}
+		g := f.Graph()
+		var nilBody []*cfgx.Edge
+		for _, m := range g.Nodes {
+			if m.Block == nil || m.Block.Cond != m.AST || len(m.Succs) != 2 {
+				continue
+			}
+			x, nonNilOnTrue, ok := f.NilTest(m.AST.(ast.Expr))
+			if !ok {
+				continue
+			}
+			pt, isPtr := f.TypeOf(x).(*types.Pointer)
+			if !isPtr || !ir.IsNamed(pt.Elem(), ir.PkgPath("types"), "Block") {
+				continue
+			}
+			if nonNilOnTrue {
+				nilBody = append(nilBody, m.Succs[1])
+			} else {
+				nilBody = append(nilBody, m.Succs[0])
+			}
+		}
+		bad := ""
+		for nd := range f.ReachableFromEdges(nilBody, nil) {
+			rs, isRet := nd.AST.(*ast.ReturnStmt)
+			if !isRet || len(rs.Results) != 2 {
+				continue
+			}
+			if tv, ok := f.Info().Types[rs.Results[1]]; ok && tv.Value != nil && tv.Value.String() == "false" {
+				bad = c.P.Pos(rs.Pos())
+			}
+		}
+		ob.Check(bad == "", nil, "%s answers not-found at %s because the record's body is nil: pruned blocks keep their header, and the syncer's header RPC and reorg paths through the pruned range rely on it", f.Name(), bad)
+	}
+	if hn == 0 {
+		ir.Fail("the store's header getter (exported DBStore method returning (types.BlockHeader, bool)) not found")
+	}
 }
 
 // recordCleared: the single argument of the write is a struct value whose fields of type *types.Block and
